@@ -10,6 +10,15 @@ BECH32_ASSUME = [
 ]
 
 PROPS = {
+    "C02": dict(
+        pkg="c02",
+        quick=T(8, 1, 900),
+        thorough=T(16, 40, 3400),
+        assumptions=[
+            "harness/ref/slip10 (own SLIP-0010 model; reproduces every official SLIP-0010 vector incl. the retry vectors, pinned copies in /verif/data/slip10) over harness/ref/secp (affine big-integer secp256k1/P-256) and crypto/ed25519 for the ed25519 public key",
+            "toy curves implement slip10.Curve/slip10.Key in the harness; the reference uses the same validity predicate",
+        ],
+    ),
     "C03": dict(
         pkg="c03",
         quick=T(4, 1, 600),
@@ -57,6 +66,13 @@ PROPS = {
             "syndrome argument: the checksum is measured black-box through Encode; that Decode rejects exactly the strings with a non-zero syndrome is property C04/C05 plus the end-to-end sub-checks here",
         ],
     ),
+    "C17": dict(
+        pkg="c17",
+        quick=T(8, 1, 900),
+        thorough=T(16, 50, 3400),
+        assumptions=["harness/ref/secp: affine secp256k1 with textbook case analysis (self-checked: G on curve, n*G = O, (n-1)G = -G, published 2G and 3G)",
+                     "the internal copy of the curve is reached through elliptic.Secp256k1() (its dynamic type promotes the embedded elliptic.Curve methods)"],
+    ),
     "C19": dict(
         pkg="c19",
         quick=T(4, 1, 600),
@@ -72,6 +88,12 @@ PROPS = {
         quick=T(4, 1, 600),
         thorough=T(16, 100, 3000),
         assumptions=["crypto/ed25519 of the Go standard library is the RFC 8032 reference (differential oracle)"],
+    ),
+    "C08": dict(
+        pkg="c08",
+        quick=T(8, 1, 900),
+        thorough=T(16, 40, 3400),
+        assumptions=["harness/ref/secp (affine big-integer arithmetic, self-checked: n*G = O, published 2G/3G) as third opinion for the shifted keys"],
     ),
     "C09": dict(
         pkg="c09",
